@@ -16,7 +16,7 @@ def main(mod, patch, flt=None):
         from vlib.check import run_programs
         m = importlib.import_module('contracts.' + mod)
         progs = m.programs('quick') if hasattr(m, 'programs') else m.PROGRAMS
-        if flt: progs = [p for p in progs if flt in p[0]]
+        if flt: progs = [p for p in progs if flt in repr(p)]
         t0 = time.time()
         res = run_programs('contracts.' + mod, progs, repo=os.environ.get('PYTOUGH_REPO', '/repo'), timeout_ms=30000)
         n = bad = 0
